@@ -29,7 +29,7 @@ ORACLES = {
     "C09": ["oracle_c09"],
     "C10": ["oracle_c10", "c10_"],
     "C11": ["oracle_c11", "c11_"],
-    "C12": ["oracle_c12"],
+    "C12": ["oracle_c12", "oracle_c11_c12"],
     "C13": ["c13_", "oracle_c13"],
     "C15": ["c15_", "oracle_c15"],
     "C16": ["oracle_c16", "c16_"],
